@@ -1593,6 +1593,46 @@ def check_row_loops(ck, fn):
                   fn.file, node.get("l"))
 
 
+def check_exits_checked(ck, fn):
+    """E7.checks-before-exit: every normal exit of a matrix-algebra member has passed each of the member's own always-on
+    compatibility assertions on its operands (XASSERT of an extent of a parameter against the receiver / another operand)"""
+    cfg = fn.cfg
+    sig = "(%s)" % ",".join(p["n"] for p in fn.params)
+    key = "%s::%s%s/exits" % (short(fn.cls), fn.name, sig)
+    operands = {p["d"]: p["n"] for p in fn.params if mat_class(fn.type(p["t"])) or vec_like(fn.type(p["t"])) or "Matrix" in fn.type(p["t"])}
+    checks = [(c, call) for c, call in assertions(fn) if any(y.get("k") == "Ref" and y.get("d") in operands for y in walk(c))]
+    if not checks or not operands:
+        return
+    if cfg is None:
+        ck.incomplete("E7.checks-before-exit", "%s: no CFG" % key)
+        return
+    problems, soft = [], []
+    for c, call in checks:
+        cid = call.get("i")
+        ok, bad = live_must_pass(fn, lambda n: any(y.get("i") == cid for y in walk(n)))
+        if ok:
+            continue
+        marked = {b["id"] for b in cfg.blocks.values() if any(any(y.get("i") == cid for y in walk(fn.by_id(e) or {})) for e in b["el"])}
+        for t in bad:
+            path = cfg.path_to(t, avoid=marked) or []
+            conds = []
+            for bid in path:
+                blk = cfg.blocks[bid]
+                if len([x for x in blk.get("succ", []) if x is not None]) == 2 and blk.get("cond") is not None and fn.by_id(blk["cond"]) is not None:
+                    conds.append(fn.by_id(blk["cond"]))
+            ln = (cfg.block_lines([t]) or [None])[-1]
+            ctext = " && ".join(render(x)[:50] for x in conds[-2:]) or "(unconditionally)"
+            msg = "line %s: the exit under `%s` is reached without passing `XASSERT(%s)`: operands the operation refuses everywhere else (mismatching shape / pattern) are accepted there and the update alpha*x is silently dropped" % (ln, ctext, render(c)[:70])
+            if any(y.get("k") == "Ref" and y.get("d") in operands for x in conds for y in walk(x)):
+                soft.append(msg + " - the condition reads the operand; whether it implies compatibility is not decided")
+            else:
+                problems.append(msg + " - the condition does not read the operand `%s`, so it cannot imply the asserted compatibility" % ", ".join(sorted({y.get("n") for y in walk(c) if y.get("k") == "Ref" and y.get("d") in operands})))
+    if soft and not problems:
+        ck.incomplete("E7.checks-before-exit", "%s: %s" % (key, soft[0]))
+        return
+    ck.ob("E7.checks-before-exit", key, not problems, "; ".join(sorted(set(problems))[:3]) if problems else "every normal exit passes the %d operand assertions of the member" % len(checks), fn.file, fn.line)
+
+
 def check_result_dims(ck, fn):
     """E1.result-dims: a non-transposing member that re-creates *this keeps rows and columns on every exit"""
     loc = Locals(fn)
@@ -1644,6 +1684,7 @@ def run(tier):
     ck.rule("E2.merge-kinds", "add_double_mat_product / add_mat_mat_product (CSR, BCSR): every subscript of row_ptr/col_ind/val/elements of X, D, A, B has the index kind the array needs (Row/NZ/Col/Dim of that object); kinds of different objects are equal only through the function's own XASSERTs; compared column indices live in the same space; cursors are bounded by the end of their own segment. Broken for: products of non-square factors.", 86)
     ck.rule("E7.no-silent-drop", "merge loops (in the product itself or in a helper it calls, whatever the spelling: while/for, refusal inside or behind the loop, break / status return / status flag): on every path through one iteration an entry of the right factor B is passed over only after the accumulate statement X_ij += w*B_lj served it (itself executed only where the two column indices are equal, reading B at the cursor) or where allow_incomplete is known to be true, where advancing the B cursor by exactly one is the only permitted effect (at most one advance per iteration); every path that leaves the merge with entries of B remaining either reaches XABORTM or has allow_incomplete true AND the X cursor at the end of its row (no slot can follow); both cursors are checked against the end of their row before they are dereferenced, and the X cursor passes a slot only after serving it or when its column is smaller than the current B column. Broken for: output patterns poorer than the product pattern (silently wrong values instead of the documented abort), rows of X shorter than rows of B.", 7)
     ck.rule("E7.full-enumeration", "merge products: the for loops over the rows of X/D, the entries D_ik and the entries A_kl that enclose the sorted-merge loop are left only through their own loop condition (or XABORTM): no break / return inside them, no continue that skips the merge. Each iteration adds an independent term of sum_k sum_l alpha*D_ik*A_kl*B_l.; no condition on the cursors of the current B row says anything about later rows. Broken for: allow_incomplete with an output row that ends before a row of B, followed by further entries A_kl' whose rows hit existing slots.", 19)
+    ck.rule("E7.checks-before-exit", "pattern / shape violations are reported, never silently accepted: every normal exit of a matrix-algebra member (axpy, scale, scale_rows/cols, lump_rows, extract_diag*, row_norm*, the sparse products, DenseMatrix::multiply) has passed each of the member's own always-on XASSERTs that compare an extent of an operand with the receiver or another operand (CFG: the assertion call lies on every path to the exit); an early return under a condition that does not read the operand bypasses the check. Broken for: empty-pattern / zero-row targets combined with non-matching operands (alpha*x silently dropped, wrong shapes accepted).", 38)
     ck.rule("E2.row-loop-state", "container-level row loops of the matrix-algebra members (extract_diag): the value stored for row i into an output vector depends only on loop-invariant data and on locals that are fresh (declared, or unconditionally re-initialised at the top) in every iteration. Broken for: rows that take no assigning path (block rows without a diagonal block after a row that has one) - they return the value of an earlier row instead of 0.", 3)
     ck.rule("E1.result-dims", "matrix-algebra members that re-create *this (shrink) construct the result with rows_in <- rows(), columns_in <- columns() of the receiver (or of an operand asserted equal) on every exit, and all exits agree. Broken for: non-square matrices on the special-case exit (all entries dropped).", 3)
     ck.rule("E0.instantiable", "the matrix algebra members instantiate for CSR and BCSR (square and rectangular blocks)", 3)
@@ -1722,6 +1763,7 @@ def run(tier):
             if base == "FEAT::LAFEM::DenseMatrix" and fn.name == "multiply":
                 for c in fn.calls(callee_re=r"^FEAT::LAFEM::Arch::ProductMatMat::(dense|dsd)$"):
                     check_product_site(ck, fn, c)
+                check_exits_checked(ck, fn)
                 continue
             if m and m.group(1) in MATRIX_KERNELS:
                 if "generic" in fn.name:
@@ -1736,6 +1778,7 @@ def run(tier):
                 if fn.name in ALGEBRA_MEMBERS:
                     for c in fn.calls(callee_re=r"^FEAT::MemoryPool::(copy|set_memory|convert)$"):
                         check_pool_site(ck, fn, c)
+                    check_exits_checked(ck, fn)
                     check_row_loops(ck, fn)
                     check_result_dims(ck, fn)
                 if fn.name in MERGE_FUNCS:
